@@ -8,6 +8,7 @@ import Driver.EngineStream
 import Driver.ClusterStream
 import Driver.RespStream
 import Driver.ClusterSysStream
+import Driver.TreeStream
 /-
 hwdriver: reads
     stream <name>
@@ -35,6 +36,8 @@ def dispatch (stream : String) : Option (String → String → CaseOut) :=
   | "members" => some membersCase
   | "resp" => some respCase
   | "clustersys" => some clusterSysCase
+  | "tree" => some treeCase
+  | "childsched" => some childSchedCase
   | "provider" => some providerCase
   | "regsched" => some regSchedCase
   | _ => none
@@ -58,7 +61,7 @@ partial def loop (h : IO.FS.Stream) (f : String → String → CaseOut)
     let inp := if l2.startsWith "in" then (rest l2 2).trimAscii.toString else ""
     let impl := if l3.startsWith "impl" then (rest l3 4).trimAscii.toString else ""
     let out := f inp impl
-    let corr := out.model = impl
+    let corr := out.model = (if out.implView = "" then impl else out.implView)
     IO.println s!"case {id} corr={if corr then "ok" else "DIFF"} nt={if out.nontrivial then 1 else 0} h={inp.hash} spec={out.spec}"
     if !corr then IO.println s!"model {out.model}"
     let cov' := out.tags.foldl bump cov
